@@ -3,6 +3,11 @@ package main
 // Finding classes of the macro-matrix stream that concern the LEXER CONTEXT inside a macro body
 // with an explicit result type (macro.go holds the stream; fixes/FINDING-CLASSES.md the rules).
 //
+// BOTH CLASSES ARE CLOSED: the defects were repaired in the library (d06bcc1: tokenRaw pushes the
+// context; fe116bb: l.base / l.bases) and their entries have left known_findings.json, so macroMatrix
+// drops every prediction made here (`!c.HasFinding(cc.id)`) and a matrix point that fails as described
+// below is a VIOLATION. The prediction machinery is kept: it is what a reopened class would need.
+//
 //	typed-macro-context-after-raw   `{% raw %}…{% end %}` in the body: its `{% end %}` pops the context the
 //	                                lexer saved at `{% macro %}`, so the rest of the body is lexed in the
 //	                                context the declaration stands in (the page's), not the macro's.
